@@ -11,7 +11,7 @@ use vstd::std_specs::cmp::{OrdSpec, PartialOrdSpec};
 //@extract file=interface/src/lib.rs item="enum NetworkInRequest"
 //@ rewrite R2 "#\[derive\(([^\]]*)\)\]" => "#[derive(Clone, Copy, PartialEq, Eq, Structural)]"
 //@end
-//@extract file=interface/src/lib.rs item="impl From<NetworkInRequest> for Network" props=C16
+//@extract file=interface/src/lib.rs item="impl From<NetworkInRequest> for Network" props=C16,C19,C14
 //@end
 spec fn net_of(n: NetworkInRequest) -> Network {
     match n {
@@ -212,7 +212,7 @@ fn get_balance_private(request: GetBalanceRequestInternal) -> Result<Satoshi, Ge
 //@extract file=canister/src/api/get_balance.rs item="fn get_balance" props=C16 mode=refuse
 //@ ret r
 //@ sigrewrite R7 "fn get_balance\(request: GetBalanceRequest\)" => "fn get_balance(vp_rt: &mut CyclesRt, request: GetBalanceRequestInternal)"
-//@ rewrite R7 "with_state\(\|s\| s\.fees\.(\w+)\)" => "vp_state().fees.\1"
+//@ r7 ro="vp_state()" type=State
 //@ rewrite R7 "verify_has_enough_cycles\(" => "verify_has_enough_cycles(vp_rt, "
 //@ rewrite R7 "charge_cycles\(" => "charge_cycles(vp_rt, "
 //@ spec
@@ -257,14 +257,10 @@ fn get_utxos_internal(state: &State, address: &u64, min_confirmations: u32, page
 //@extract file=canister/src/api/get_utxos.rs item="fn get_utxos_private" props=C16 mode=refuse
 //@ ret r
 //@ sigrewrite R7 "request: GetUtxosRequest," => "vp_rt: &mut CyclesRt, request: GetUtxosRequestInternal,"
-//@ rewrite R7 "with_state\(\|s\| s\.fees\.(\w+)\)" => "vp_state().fees.\1"
 //@ rewrite R7 "verify_has_enough_cycles\(" => "verify_has_enough_cycles(vp_rt, "
 //@ rewrite R7 "charge_cycles\(" => "charge_cycles(vp_rt, "
-//@ rewrite R7 "with_state\(\|state\| \{" => "{ let state: &State = vp_state(); {"
-//@ rewrite R7 "\}\)\?;" => "} }?;"
 //@ rewrite R1 "with_state_mut\(\|s\| \{\s*(s\.metrics\s*\.\w+\s*\.observe\([\w.]+\);\s*|s\s*\.metrics\s*\.\w+\s*\.observe\([\w.]+\);\s*)+\}\);" => "/* R1: metrics observation removed */"
-//@ rewrite R7 "with_state\(\|s\| \{" => "{ let s: &State = vp_state(); {"
-//@ rewrite R7 "\}\);\s*// Print the number of instructions" => "} }; // Print the number of instructions"
+//@ r7 ro="vp_state()" type=State
 //@ spec
 //@| requires
 //@|     old(vp_rt).wf(),
@@ -305,12 +301,10 @@ fn get_block_headers_internal(request: &GetBlockHeadersRequest2) -> (r: Result<(
 //@extract file=canister/src/api/get_block_headers.rs item="fn get_block_headers" props=C16 mode=refuse
 //@ ret r
 //@ sigrewrite R7 "request: GetBlockHeadersRequest," => "vp_rt: &mut CyclesRt, request: GetBlockHeadersRequest2,"
-//@ rewrite R7 "with_state\(\|s\| s\.fees\.(\w+)\)" => "vp_state().fees.\1"
 //@ rewrite R7 "verify_has_enough_cycles\(" => "verify_has_enough_cycles(vp_rt, "
 //@ rewrite R7 "charge_cycles\(" => "charge_cycles(vp_rt, "
 //@ rewrite R1 "with_state_mut\(\|s\| \{\s*(s\s*\.metrics\s*\.\w+\s*\.observe\([\w.]+\);\s*)+\}\);" => "/* R1: metrics observation removed */"
-//@ rewrite R7 "with_state\(\|s\| \{" => "{ let s: &State = vp_state(); {"
-//@ rewrite R7 "\}\);\s*// Print the number of instructions" => "} }; // Print the number of instructions"
+//@ r7 ro="vp_state()" type=State
 //@ spec
 //@| requires
 //@|     old(vp_rt).wf(),
@@ -331,7 +325,7 @@ fn get_block_headers_internal(request: &GetBlockHeadersRequest2) -> (r: Result<(
 
 // ---- get_current_fee_percentiles: flat fee ---------------------------------------------------------------------------
 //@slice file=canister/src/api/fee_percentiles.rs item="fn get_current_fee_percentiles" to_before="let res = with_state_mut(|s| {" props=C16 mode=refuse
-//@ rewrite R7 "with_state\(\|s\| s\.fees\.(\w+)\)" => "vp_state().fees.\1"
+//@ r7 ro="vp_state()" type=State
 //@ rewrite R7 "verify_has_enough_cycles\(" => "verify_has_enough_cycles(vp_rt, "
 //@ rewrite R7 "charge_cycles\(" => "charge_cycles(vp_rt, "
 //@ head
@@ -429,11 +423,9 @@ spec fn send_accepts(st: &SendState, req: &SendTransactionRequest) -> bool {
 //@ sigrewrite R7 "async fn send_transaction\(request: SendTransactionRequest\)" => "fn send_transaction(vp_rt: &mut CyclesRt, vp_st: &mut SendState, vp_out: &mut Outbox, request: SendTransactionRequest)"
 //@ rewrite R7 "verify_api_access\(\);" => "send_verify_api_access(vp_st);"
 //@ rewrite R7 "verify_network\(request\.network\.into\(\)\);" => "send_verify_network(vp_st, request.network.into());"
-//@ rewrite R7 "charge_cycles\(with_state\(\|s\| \{" => "charge_cycles(vp_rt, { let s: &SendState = &*vp_st; {"
-//@ rewrite R7 "\}\)\);" => "} });"
+//@ rewrite R7 "charge_cycles\(" => "charge_cycles(vp_rt, "
 //@ rewrite R10 "let tx(: Transaction)? = (.*?)\s*\.map_err\(\|_\| SendTransactionError::MalformedTransaction\)\?;" => "let tx\1 = match \2 { Ok(t) => t, Err(_) => { return Err(SendTransactionError::MalformedTransaction); } };"
-//@ rewrite R7 "with_state_mut\(\|s\| \{" => "{ let s: &mut SendState = &mut *vp_st; {"
-//@ rewrite R7 "\}\);\s*// Use the internal endpoint" => "} }; // Use the internal endpoint"
+//@ r7 ro="&*vp_st" rw="&mut *vp_st" type=SendState
 //@ rewrite R7 "runtime::call_send_transaction_internal\(\s*with_state\(\|s\| s\.blocks_source\),\s*(SendTransactionInternalRequest \{.*?\}),\s*\)\s*\.await\s*\.expect\(\"[^\"]*\"\);" => "vp_out.forward(vp_st.blocks_source, \1);"
 //@ spec
 //@| requires
@@ -456,7 +448,7 @@ spec fn send_accepts(st: &SendState, req: &SendTransactionRequest) -> bool {
 //@|     final(vp_st).api_access == old(vp_st).api_access && final(vp_st).network == old(vp_st).network && final(vp_st).fees == old(vp_st).fees,
 //@ before "charge_cycles(vp_rt"
 //@| proof {
-//@|     let l = request.transaction.len() as int; let pb = vp_st.fees.send_transaction_per_byte as int;
+//@|     let l = request.transaction.len() as int; let pb = old(vp_st).fees.send_transaction_per_byte as int;
 //@|     assert(l == request.transaction@.len());
 //@|     assert(usize::MAX <= 0xffff_ffff_ffff_ffff) by { vstd::layout::unsigned_int_max_values(); }
 //@|     assert(pb * l <= 0x1_0000_0000 * 0xffff_ffff_ffff_ffff) by(nonlinear_arith) requires 0 <= pb <= 0x1_0000_0000, 0 <= l <= 0xffff_ffff_ffff_ffff;
